@@ -8,7 +8,7 @@ import json
 import random
 from fractions import Fraction as Fr
 
-LABELS = ["A", "B", "C"]
+LABELS = ["A", "B", "C", "E", "F"]
 
 
 def fr(x):
